@@ -66,3 +66,17 @@ def agree(a, b, scale, dtname, numel):
         tol = max(tol, 1e-4 * scale)
     d = gen.fro(a - b)
     return d <= tol, d, tol
+
+
+def resolve_fractions(plan, count_call):
+    """A plan may name its failing calls as fractions of the number of primary SVD calls the routine makes
+    ({'frac': [0.0, 0.5, 0.97]}): that number is measured by a fault-free counting run (`count_call` must re-seed and
+    re-create whatever the run consumes), so that late calls - the final truncation sweep, the last core - are failed
+    as often as early ones, however long the run is."""
+    if not plan or plan.get('frac') is None:
+        return plan
+    _, _, f0 = run_with_plan(count_call, {})
+    n = f0.n_primary
+    if n <= 0:
+        return dict(plan, P=[])
+    return dict(plan, P=sorted(set(min(n - 1, int(fr * n)) for fr in plan['frac'])), n_calls=n)
